@@ -24,7 +24,25 @@ FORBIDDEN = re.compile(
 
 
 # ------------------------------------------------------------------ wire format
+_PLAIN_WIRE = re.compile(r"^[0-9() -]*$")
+_BRACKETS = str.maketrans("[]", "()")
+
+
 def to_wire(x):
+    """nested lists of integers (strings as lists of code points) as one S-expression.  Fast path: a value json can print with
+    nothing but digits, signs, brackets and blanks (lists of ints only) is printed by json; everything else - and whatever
+    the fast path is not sure about - goes through the recursive definition below, which is the specification."""
+    if isinstance(x, list):
+        try:
+            s = json.dumps(x, separators=(" ", ":")).translate(_BRACKETS)
+        except (TypeError, ValueError):
+            s = None
+        if s is not None and _PLAIN_WIRE.match(s):
+            return s
+    return _to_wire(x)
+
+
+def _to_wire(x):
     if isinstance(x, bool):
         return "1" if x else "0"
     if isinstance(x, int):
@@ -33,7 +51,7 @@ def to_wire(x):
         return "(" + " ".join(str(ord(c)) for c in x) + ")"
     if x is None:
         return "()"
-    return "(" + " ".join(to_wire(y) for y in x) + ")"
+    return "(" + " ".join(_to_wire(y) for y in x) + ")"
 
 
 def from_wire(s):
